@@ -129,6 +129,10 @@ static int decode_case(struct dp *dd, int allow_events, int allow_hold, int eage
                 if (!eager)
                         w_sched(1, arr, n);
         }
+        /* last draw (so that older corpus files keep their meaning): the first group's command array registered a second
+         * time through a further group; 7 and not 0 so that an exhausted structure tail means "no" */
+        if (below(&d, 8) == 7)
+                w_group_alias((const uint8_t *)"ga", 2, 1, below(&d, 2), 0);
         if (d.n > 4096)
                 d.n = 4096;
         w_input(d.p, d.n);
